@@ -27,6 +27,10 @@ Accepted statements (everything else raises `Unsupported`):
     `warnings.filterwarnings(...)`;  integer bookkeeping locals of the block loops (`chunk_size = 100`,
     `radius = int(size / 2)`, `x = np.array_split(...)`, `*_begin = …`) — their meaning is T8's.
 
+Bilateral extension: `w = min(<dims>, int(K1 * sigma_space + K2))` (T8's window formula), `o = int(<nat> / K)` (a natural),
+`t = self.<uninterpreted>(<nat>, <float>)` (a table of an uninterpreted function), float parameters passed positionally at
+calls, and block kernels that are calls of a per-window function (`WinFn`, `read_window_function`: see its docstring).
+
 Trusted: that all 2-D arrays of one program have the shape `ny × nx` handed to it (they are copies of each other), the
 reading of `np.array_split` (ported from `Model/Blocks.lean`), and the named reductions (`np.nanmedian`, `np.argmin`)
 whose meaning is the hand model's.  Validated on every run of C10 / C03 against the real functions, including the
